@@ -87,6 +87,96 @@ def execute_plan(engine, plan, prop, known, keep_trace=False):
     return ctx
 
 
+class RunSummary:
+    """Picklable result of one execution (crosses the fork boundary)."""
+
+    def __init__(self, ctx=None):
+        if ctx is not None:
+            self.digest = ctx.digest()
+            self.shape = ctx.shape()
+            self.stats = dict(ctx.stats)
+            self.violations = [v.as_dict() for v in ctx.violations]
+            self.known_hits = dict(ctx.known_hits)
+            self.other_prop = dict(ctx.other_prop)
+            self.carried = ctx.carried
+            self.sim_seconds = ctx.sim_seconds
+            self.steps = ctx.steps
+            self.capped = ctx.capped
+            self.nontrivial = ctx.nontrivial
+            self.lines = ctx.lines
+
+
+def in_child(fn, timeout=600, what=''):
+    """Run fn() in a forked child and return its (picklable) result.  The child starts from this
+    process's state at fork time; the parent never executes library code itself, so every chunk of
+    runs, every minimisation probe and every replay starts from the same pristine state (library
+    imported, nothing executed)."""
+    import pickle
+    import select
+    import signal
+    r, w = os.pipe()
+    pid = os.fork()
+    if pid == 0:
+        code = 0
+        try:
+            os.close(r)
+            try:
+                payload = pickle.dumps(('ok', fn()))
+            except BaseException as e:
+                payload = pickle.dumps(('error', '%s: %s\n%s' % (type(e).__name__, e, traceback.format_exc()[-2000:])))
+            view = memoryview(payload)
+            while len(view):
+                n = os.write(w, view[:65536])
+                view = view[n:]
+        except BaseException:
+            code = 3
+        finally:
+            os._exit(code)
+    os.close(w)
+    chunks = []
+    deadline = time.time() + timeout
+    try:
+        while True:
+            left = deadline - time.time()
+            if left <= 0:
+                os.kill(pid, signal.SIGKILL)
+                raise HarnessError('child exceeded %ds wall time (%s)' % (timeout, what))
+            rd, _, _ = select.select([r], [], [], min(left, 5.0))
+            if rd:
+                b = os.read(r, 1 << 20)
+                if not b:
+                    break
+                chunks.append(b)
+    finally:
+        os.close(r)
+        try:
+            os.waitpid(pid, 0)
+        except ChildProcessError:
+            pass
+    data = b''.join(chunks)
+    if not data:
+        raise HarnessError('child died without a result (%s)' % what)
+    kind, val = pickle.loads(data)
+    if kind == 'error':
+        raise HarnessError('child failed (%s): %s' % (what, val))
+    return val
+
+
+def run_history(engine, plans, prop, known, keep_trace=False, timeout=600):
+    """Execute a list of plans one after the other in ONE fresh child and return the RunSummary of
+    the last one (the earlier ones are the process history the last one may depend on)."""
+    def fn():
+        last = None
+        for p in plans:
+            last = RunSummary(execute_plan(engine, copy.deepcopy(p), prop, known, keep_trace))
+        return last
+    return in_child(fn, timeout, 'seed %s' % plans[-1].get('seed'))
+
+
+def run_isolated(engine, plan, prop, known, keep_trace=False, timeout=600):
+    return run_history(engine, [plan], prop, known, keep_trace, timeout)
+
+
 def plan_for(engine, base, prop, tier, i):
     seed = run_seed(base, prop, i)
     rng = random.Random(seed)
@@ -96,38 +186,50 @@ def plan_for(engine, base, prop, tier, i):
     return plan
 
 
+_SYS_CACHE = {}
+
+
+def plan_by_ref(engine, base, prop, tier, ref):
+    """ref >= 0: seeded run index; ref < 0: systematic plan number -(ref+1)."""
+    if ref >= 0:
+        return plan_for(engine, base, prop, tier, ref)
+    key = (engine.name, prop, tier)
+    if key not in _SYS_CACHE:
+        _SYS_CACHE[key] = engine.systematic(prop, tier)
+    p = copy.deepcopy(_SYS_CACHE[key][-(ref + 1)])
+    p['seed'] = -1
+    p['index'] = ref
+    return p
+
+
 # ------------------------------------------------------------------ worker side
 
-def _work(prop, tier, base, indices, recheck_every, deadline, systematic_slice=None):
-    faulthandler.dump_traceback_later(max(60, int(deadline - time.time()) + 120), exit=True)
-    t_cpu0 = time.process_time()
+def _work(prop, tier, base, refs, recheck_every, deadline):
+    """Pool task: run one chunk of plans in a fresh child of this worker."""
+    return in_child(lambda: _work_chunk(prop, tier, base, refs, recheck_every, deadline), max(120, deadline - time.time() + 300), 'chunk %s..' % refs[:1])
+
+
+def _work_chunk(prop, tier, base, refs, recheck_every, deadline):
+    faulthandler.dump_traceback_later(max(60, int(deadline - time.time()) + 240), exit=True)
+    ct0 = os.times()
+    t_cpu0 = ct0.user + ct0.system + ct0.children_user + ct0.children_system
     engine = engine_for(prop)
     known = load_known()
     out = {'runs': 0, 'stats': Counter(), 'shapes': set(), 'nontrivial_shapes': set(), 'carried': 0, 'sim_seconds': 0.0,
            'capped': 0, 'violations': [], 'known_hits': Counter(), 'samples': [], 'determinism_checked': 0, 'steps': 0,
-           'other_prop': Counter(), 'faulty_runs': 0, 'faultfree_runs': 0, 'stopped_early': False, 'digests': {}}
-    plans = []
-    if systematic_slice is not None:
-        sysplans = engine.systematic(prop, tier)
-        lo, hi = systematic_slice
-        for j in range(lo, min(hi, len(sysplans))):
-            p = sysplans[j]
-            p['seed'] = -1
-            p['index'] = -(j + 1)
-            plans.append(p)
-    for n, i in enumerate(indices):
-        plans.append(i)
-    for n, item in enumerate(plans):
+           'other_prop': Counter(), 'faulty_runs': 0, 'faultfree_runs': 0, 'stopped_early': False, 'history_dependent': 0}
+    done_refs = []
+    for n, ref in enumerate(refs):
         if time.time() > deadline:
             out['stopped_early'] = True
             break
-        plan = item if isinstance(item, dict) else plan_for(engine, base, prop, tier, item)
-        ctx = execute_plan(engine, plan, prop, known)
+        plan = plan_by_ref(engine, base, prop, tier, ref)
+        ctx = RunSummary(execute_plan(engine, plan, prop, known))
         out['runs'] += 1
         out['stats'].update(ctx.stats)
         out['known_hits'].update(ctx.known_hits)
         out['other_prop'].update(ctx.other_prop)
-        sh = ctx.shape()
+        sh = ctx.shape
         out['shapes'].add(sh)
         fired = any(k.startswith('fault.') and v for k, v in ctx.stats.items())
         if fired:
@@ -141,20 +243,26 @@ def _work(prop, tier, base, indices, recheck_every, deadline, systematic_slice=N
         out['steps'] += ctx.steps
         out['capped'] += 1 if ctx.capped else 0
         if len(out['samples']) < 2 and (fired or n > 3):
-            out['samples'].append({'seed': plan['seed'], 'plan': engine.sample_view(plan), 'trace_digest': ctx.digest()[:16],
+            out['samples'].append({'seed': plan['seed'], 'plan': engine.sample_view(plan), 'trace_digest': ctx.digest[:16],
                                    'faults_fired': {k[6:]: v for k, v in ctx.stats.items() if k.startswith('fault.')}})
-        if plan['index'] % 97 == 0:
-            out['digests'][plan['index']] = ctx.digest()
         if ctx.violations:
             if len(out['violations']) < 6:
-                v = ctx.violations[0]
-                out['violations'].append({'plan': plan, 'violation': v.as_dict(), 'digest': ctx.digest()})
+                out['violations'].append({'ref': ref, 'history': list(done_refs), 'violation': ctx.violations[0], 'digest': ctx.digest})
         elif recheck_every and n % recheck_every == 0:
-            ctx2 = execute_plan(engine, copy.deepcopy(plan), prop, known)
+            # determinism: the same plan again, here and in two pristine children
+            ctx2 = RunSummary(execute_plan(engine, copy.deepcopy(plan), prop, known))
             out['determinism_checked'] += 1
-            if ctx2.digest() != ctx.digest():
-                raise HarnessError('non-deterministic execution: seed %s digests %s vs %s' % (plan['seed'], ctx.digest(), ctx2.digest()))
-    out['cpu_s'] = time.process_time() - t_cpu0
+            if ctx2.digest != ctx.digest:
+                a = run_isolated(engine, plan, prop, known)
+                b = run_isolated(engine, plan, prop, known)
+                if a.digest != b.digest:
+                    raise HarnessError('non-deterministic execution: seed %s digests %s vs %s' % (plan['seed'], a.digest, b.digest))
+                # the harness is deterministic; the library under test carries hidden process-global
+                # state that makes an execution depend on what ran before it in the same process
+                out['history_dependent'] += 1
+        done_refs.append(ref)
+    ct = os.times()
+    out['cpu_s'] = (ct.user + ct.system + ct.children_user + ct.children_system) - t_cpu0
     faulthandler.cancel_dump_traceback_later()
     out['stats'] = dict(out['stats'])
     out['known_hits'] = dict(out['known_hits'])
@@ -166,32 +274,56 @@ def _work(prop, tier, base, indices, recheck_every, deadline, systematic_slice=N
 
 # ------------------------------------------------------------------ minimisation
 
-def _violates(engine, plan, prop, known, clause, budget):
+def _violates(engine, history, plan, prop, known, clause, budget):
     if budget['n'] <= 0 or time.time() > budget['deadline']:
         return None
     budget['n'] -= 1
     try:
-        ctx = execute_plan(engine, copy.deepcopy(plan), prop, known)
+        res = run_history(engine, list(history) + [plan], prop, known, timeout=180)
     except Exception:
         return None
-    for v in ctx.violations:
-        if v.clause == clause:
-            return (ctx, v)
+    for v in res.violations:
+        if v['clause'] == clause:
+            return (res, v)
     return None
 
 
-def minimise(engine, plan, prop, known, clause, max_exec=400, max_s=60):
+def minimise(engine, plan, prop, known, clause, history=(), max_exec=400, max_s=75):
+    """Returns (history, plan, (summary, violation)) minimised, or (history, plan, None) when the
+    violation does not reproduce."""
     budget = {'n': max_exec, 'deadline': time.time() + max_s}
     best = copy.deepcopy(plan)
-    r = _violates(engine, best, prop, known, clause, budget)
+    hist = []
+    r = _violates(engine, hist, best, prop, known, clause, budget)
+    if r is None and history:
+        # needs the process history it was found under: first try all of it, then shrink it
+        hist = list(history)
+        r = _violates(engine, hist, best, prop, known, clause, budget)
+        if r is not None:
+            n = 2
+            while len(hist) >= 1 and budget['n'] > 0:
+                size = max(1, len(hist) // n)
+                reduced = False
+                for start in range(0, len(hist), size):
+                    cand = hist[:start] + hist[start + size:]
+                    r2 = _violates(engine, cand, best, prop, known, clause, budget)
+                    if r2:
+                        hist, r = cand, r2
+                        n = max(n - 1, 2)
+                        reduced = True
+                        break
+                if not reduced:
+                    if size == 1:
+                        break
+                    n = min(len(hist), n * 2)
     if r is None:
-        return plan, None
+        return [], plan, None
     ctx, v = r
     # 1. cut after the violating step
-    if isinstance(v.step, int) and 0 <= v.step < len(best['steps']) - 1:
+    if isinstance(v['step'], int) and 0 <= v['step'] < len(best['steps']) - 1:
         cand = copy.deepcopy(best)
-        cand['steps'] = cand['steps'][:v.step + 1]
-        r2 = _violates(engine, cand, prop, known, clause, budget)
+        cand['steps'] = cand['steps'][:v['step'] + 1]
+        r2 = _violates(engine, hist, cand, prop, known, clause, budget)
         if r2:
             best, (ctx, v) = cand, r2
     # 2. ddmin over steps
@@ -203,7 +335,7 @@ def minimise(engine, plan, prop, known, clause, max_exec=400, max_s=60):
         for start in range(0, len(steps), size):
             cand = copy.deepcopy(best)
             cand['steps'] = steps[:start] + steps[start + size:]
-            r2 = _violates(engine, cand, prop, known, clause, budget)
+            r2 = _violates(engine, hist, cand, prop, known, clause, budget)
             if r2:
                 best, (ctx, v) = cand, r2
                 n = max(n - 1, 2)
@@ -220,12 +352,12 @@ def minimise(engine, plan, prop, known, clause, max_exec=400, max_s=60):
         for cand in engine.simplify(best):
             if canon(cand) == canon(best):
                 continue
-            r2 = _violates(engine, cand, prop, known, clause, budget)
+            r2 = _violates(engine, hist, cand, prop, known, clause, budget)
             if r2:
                 best, (ctx, v) = cand, r2
                 progress = True
                 break
-    return best, (ctx, v)
+    return hist, best, (ctx, v)
 
 
 # ------------------------------------------------------------------ replay files
@@ -240,13 +372,21 @@ def repo_state():
         return {'rev': '?', 'dirty': '?'}
 
 
-def write_replay(prop, plan, v, digest):
+class _V:
+    def __init__(self, d):
+        self.clause, self.message, self.step, self.detail = d['clause'], d['message'], d['step'], d['detail']
+
+
+def write_replay(prop, plan, v, digest, history=()):
+    if isinstance(v, dict):
+        v = _V(v)
     rdir = os.environ.get('VERIF_REPLAY_DIR') or os.path.join(VERIF, 'replays')
     os.makedirs(rdir, exist_ok=True)
     name = '%s-%s-%s.json' % (prop, v.clause.split('.', 1)[1].replace('/', '_'), plan.get('seed'))
     path = os.path.join(rdir, name)
     doc = {'property': prop, 'clause': v.clause, 'message': v.message, 'detail': v.detail, 'engine': plan.get('engine'),
-           'plan': plan, 'trace_digest': digest, 'repo': repo_state(), 'python': sys.version.split()[0]}
+           'plan': plan, 'history': list(history), 'trace_digest': digest, 'repo': repo_state(), 'python': sys.version.split()[0],
+           'note': 'history = plans that must be executed first in the same process (empty unless the library under test keeps hidden process-global state)'}
     with open(path, 'w') as f:
         json.dump(doc, f, indent=1, sort_keys=True, default=str)
     return path
@@ -258,6 +398,8 @@ def replay_file(path, quiet=False):
         doc = json.load(f)
     prop = doc['property']
     engine = engine_for(prop)
+    for hp in doc.get('history') or []:
+        execute_plan(engine, hp, prop, load_known())
     ctx = execute_plan(engine, doc['plan'], prop, load_known(), keep_trace=not quiet)
     same = [v for v in ctx.violations if v.clause == doc['clause']]
     ok = bool(same) and ctx.digest() == doc['trace_digest']
@@ -296,7 +438,7 @@ def run_check(prop, tier, base_seed=None, budget_s=None, workers=None, runs=None
     chunk = max(1, min(250, runs // (workers * 4) or 1))
     agg = {'runs': 0, 'stats': Counter(), 'shapes': set(), 'nontrivial_shapes': set(), 'carried': 0, 'sim_seconds': 0.0, 'capped': 0,
            'violations': [], 'known_hits': Counter(), 'samples': [], 'determinism_checked': 0, 'steps': 0, 'other_prop': Counter(),
-           'faulty_runs': 0, 'faultfree_runs': 0, 'stopped_early': False, 'cpu_s': 0.0}
+           'faulty_runs': 0, 'faultfree_runs': 0, 'stopped_early': False, 'cpu_s': 0.0, 'history_dependent': 0}
     harness_errors = []
     ctxmp = multiprocessing.get_context('fork')
     next_i = 0
@@ -309,9 +451,9 @@ def run_check(prop, tier, base_seed=None, budget_s=None, workers=None, runs=None
             nonlocal next_i, sys_next
             while len(pending) < workers * 2 and time.time() < deadline:
                 if sys_next < nsys:
-                    sl = (sys_next, sys_next + sys_chunk)
+                    refs = [-(j + 1) for j in range(sys_next, min(nsys, sys_next + sys_chunk))]
                     sys_next += sys_chunk
-                    pending.add(ex.submit(_work, prop, tier, base_seed, [], 0, deadline, sl))
+                    pending.add(ex.submit(_work, prop, tier, base_seed, refs, 0, deadline))
                     continue
                 if next_i >= runs:
                     break
@@ -334,7 +476,7 @@ def run_check(prop, tier, base_seed=None, budget_s=None, workers=None, runs=None
                 except Exception as e:
                     harness_errors.append('worker failed: %s: %s' % (type(e).__name__, e))
                     continue
-                for k in ('runs', 'carried', 'sim_seconds', 'capped', 'determinism_checked', 'steps', 'faulty_runs', 'faultfree_runs', 'cpu_s'):
+                for k in ('runs', 'carried', 'sim_seconds', 'capped', 'determinism_checked', 'steps', 'faulty_runs', 'faultfree_runs', 'cpu_s', 'history_dependent'):
                     agg[k] += o[k]
                 agg['stats'].update(o['stats'])
                 agg['known_hits'].update(o['known_hits'])
@@ -361,24 +503,28 @@ def run_check(prop, tier, base_seed=None, budget_s=None, workers=None, runs=None
     known = load_known()
     reported = []
     seen_clauses = set()
-    agg['violations'].sort(key=lambda d: (d['violation']['clause'], d['plan'].get('index', 0)))
+    agg['violations'].sort(key=lambda d: (d['violation']['clause'], d['ref'] if d['ref'] >= 0 else 10 ** 9 - d['ref']))
     for d in agg['violations']:
         cl = d['violation']['clause']
         if cl in seen_clauses or len(seen_clauses) >= 4:
             continue
         seen_clauses.add(cl)
         try:
-            best, r = minimise(engine, d['plan'], prop, known, cl)
+            plan = plan_by_ref(engine, base_seed, prop, tier, d['ref'])
+            history = [plan_by_ref(engine, base_seed, prop, tier, r) for r in d['history']]
+            hist, best, r = minimise(engine, plan, prop, known, cl, history)
             if r is None:
-                harness_errors.append('violation %s of seed %s did not reproduce in the parent process' % (cl, d['plan'].get('seed')))
+                harness_errors.append('violation %s of seed %s did not reproduce, neither alone nor after the %d runs that preceded it in its worker'
+                                      % (cl, plan.get('seed'), len(history)))
                 continue
             ctx, v = r
-            path = write_replay(prop, best, v, ctx.digest())
+            v = _V(v)
+            path = write_replay(prop, best, v, ctx.digest, hist)
             ok, proc = replay_in_fresh_interpreter(path)
             if not ok:
                 harness_errors.append('replay %s did not reproduce in a fresh interpreter (rc=%s): %s' % (path, proc.returncode, proc.stdout[-300:] + proc.stderr[-300:]))
                 continue
-            reported.append((cl, v.message, path, len(best['steps'])))
+            reported.append((cl, v.message, path, len(best['steps']), len(hist)))
         except Exception as e:
             harness_errors.append('minimiser failed: %s' % ''.join(traceback.format_exception_only(type(e), e)).strip())
 
@@ -388,8 +534,8 @@ def run_check(prop, tier, base_seed=None, budget_s=None, workers=None, runs=None
     for kid, n in sorted(agg['known_hits'].items()):
         k = next((k for k in known if k['id'] == kid), None)
         print('KNOWN-FINDING: property=%s %s [%s; hit in %d executions]' % (prop, k['what'] if k else kid, kid, n))
-    for cl, msg, path, nsteps in reported:
-        print('violated clause %s: %s (minimised to %d steps)' % (cl, msg, nsteps))
+    for cl, msg, path, nsteps, nhist in reported:
+        print('violated clause %s: %s (minimised to %d steps%s)' % (cl, msg, nsteps, ', needs %d earlier run(s) in the same process: the library keeps hidden global state' % nhist if nhist else ''))
         print('VIOLATION property=%s replay=%s' % (prop, path))
     rate = agg['runs'] / wall * 3600 if wall > 0 else 0
     print('%s %s: %d runs (%d with faults fired, %d fault-free), %d distinct non-trivial shapes, %.0f runs/h, %d determinism re-executions, %.1fs'
@@ -436,7 +582,8 @@ def write_evidence(prop, tier, base_seed, engine, agg, reported, harness_errors,
         'real_components': list(engine.real_components),
         'stubbed_components': list(engine.stubbed_components),
         'known_findings': {k: v for k, v in agg['known_hits'].items()},
-        'violated_clauses': [{'clause': c, 'message': m, 'replay': p} for c, m, p, _ in reported],
+        'violated_clauses': [{'clause': c, 'message': m, 'replay': p} for c, m, p, _, _h in reported],
+        'history_dependent_executions': int(agg.get('history_dependent', 0)),
         'harness_errors': harness_errors,
         'other_property_clause_hits_ignored': dict(agg['other_prop']),
         'exhaustive': False,
